@@ -90,6 +90,9 @@ type Exec struct {
 	frameCtr int
 	oblCount map[string]int
 	storedRefs []storedRef // objects whose fields were written (for type invariants)
+	frozenPrefix map[string][]string
+	stableCells  []string // write-once captured local variables (see writeOnceCaptured)
+	ownWrites  int         // writes of the function under verification to objects that existed before it ran
 	opts     *Options
 	initHeap map[string]string // initial heap terms (for old())
 	initVars map[string]Val    // entry values of parameters by name
@@ -270,8 +273,40 @@ func (ex *Exec) heapSet(st *State, key, sort, term string) {
 }
 
 // havocKeys replaces the given heap keys by fresh values.
+// frozenKey reports a heap key of a frozen field (assigned only by the type's constructors) when the function
+// under verification is not one of those constructors: nothing it calls can change that field of an existing object.
+func (ex *Exec) frozenKey(k string) bool {
+	if !strings.HasPrefix(k, "F|") || ex.C == nil {
+		return false
+	}
+	if ex.frozenPrefix == nil {
+		ex.frozenPrefix = map[string][]string{}
+		for tk, tc := range ex.C.Types {
+			for _, fd := range tc.Frozen {
+				for _, f := range fd.Fields {
+					ex.frozenPrefix["F|"+tk+"|"+f] = fd.Ctors
+				}
+			}
+		}
+	}
+	for pre, ctors := range ex.frozenPrefix {
+		if k == pre || strings.HasPrefix(k, pre+".") {
+			for _, c := range ctors {
+				if c == ex.rootKey || strings.HasPrefix(ex.rootKey, c+"$") {
+					return false
+				}
+			}
+			return true
+		}
+	}
+	return false
+}
+
 func (ex *Exec) havocKeys(st *State, keys []string) {
 	for _, k := range keys {
+		if ex.frozenKey(k) {
+			continue
+		}
 		sort, ok := ex.universe[k]
 		if !ok {
 			sort, ok = ex.seeded[k]
@@ -279,7 +314,13 @@ func (ex *Exec) havocKeys(st *State, keys []string) {
 				continue
 			}
 		}
+		oldArr, had := st.heap[k]
 		st.heap[k] = ex.fresh(k+"~h", sort)
+		if had && strings.HasPrefix(k, "C|") {
+			for _, ref := range ex.stableCells {
+				ex.emit("(assert (= (select " + st.heap[k] + " " + ref + ") (select " + oldArr + " " + ref + ")))")
+			}
+		}
 	}
 }
 
